@@ -165,7 +165,7 @@ class Builder:
 
     def find(self, suffix, selftype=None):
         """by name suffix and (optionally) the type of the receiver `_1` -- never by source line"""
-        c = [f for n, f in self.funcs.items() if n.endswith(suffix) and (selftype is None or re.search(selftype, f.argtypes.get("_1", "")))]
+        c = [f for n, f in self.funcs.items() if (n.endswith(suffix) or n == suffix.lstrip(":")) and (selftype is None or re.search(selftype, f.argtypes.get("_1", "")))]
         if len(c) != 1:
             raise ExtractionError("function %s (self: %s): %d candidates in the MIR dump" % (suffix, selftype, len(c)))
         return c[0]
@@ -504,8 +504,9 @@ class Program:
                 return blk
 
             return self._poll(b.inline(f, u, callback=cb))
-        if op in ("gc", "define", "alloc", "set"):
-            name = {"gc": "::gc_collect", "define": "::insert_binding", "alloc": "::make_box", "set": "::handle_set"}[op]
+        if op in ("gc", "define", "alloc", "set", "spawn"):
+            name = {"gc": "::gc_collect", "define": "::insert_binding", "alloc": "::make_box", "set": "::handle_set",
+                    "spawn": "::spawn_native_thread"}[op]
             f = b.find(name)
             mk_cont = cont
             if op in ("gc", "alloc"):
